@@ -1,14 +1,20 @@
 ------------------------------ MODULE T_Request ------------------------------
 (* Trace specification for C04: every `conn` line is one connection the simulator accepted while the
    real code was fetching; it must be TLS (never plaintext) and carry exactly one well-formed request
-   for the URL in question (Request.tla).  `noconn` lines assert that a fetch which must not touch the
+   for the URL in question (Request.tla).  A connection also must not identify
+   the client below HTTP (resumed TLS session, client certificate).  `noconn` lines assert that a fetch which must not touch the
    network (non-https URL) produced no connection at all.                                          *)
 EXTENDS Request, TLC, Json
 Log == ndJsonDeserialize("trace.ndjson")
 VARIABLES l, bad
 vars == <<l, bad>>
+(* host_alt: a second admissible Host value (the authority without its default port) *)
 Why(e) == IF e.plain THEN "plaintext connection"
-          ELSE IF ~RequestOK(e.raw, e.host, e.accept, e.path, e.query) THEN "malformed or tampered request"
+          ELSE IF e.resumed THEN "TLS session resumed: the client presented an identifier a server gave it earlier"
+          ELSE IF e.clientcert THEN "client certificate presented"
+          ELSE IF ~ \/ RequestOK(e.raw, e.host, e.accept, e.path, e.query)
+                    \/ "host_alt" \in DOMAIN e /\ RequestOK(e.raw, e.host_alt, e.accept, e.path, e.query)
+               THEN "malformed or tampered request"
           ELSE ""
 Init == l = 1 /\ bad = <<>>
 Step == /\ l <= Len(Log) /\ l' = l + 1
